@@ -78,6 +78,15 @@ Theorem result_locs_total_on_legal : forall rs,
 Proof. intros rs H. apply (result_locs_legal rs []). intros c. exact (H c). Qed.
 Print Assumptions result_locs_total_on_legal.
 
+(* the interpreter caches one trampoline per call signature key: call sites with equal keys need
+   the same trampoline (same assignment, same stack adjustment, same result loop) *)
+Theorem ff_cache_key_sound : forall i1 i2, wf_args (cs_args i1) = true -> wf_args (cs_args i2) = true ->
+  ff_interface_eq i1 i2 = true ->
+  ff_assign (cs_args i1) = ff_assign (cs_args i2) /\ ff_results (cs_res i1) = ff_results (cs_res i2)
+  /\ ff_sub_rsp (cs_args i1) = ff_sub_rsp (cs_args i2).
+Proof. exact ff_cache_key_sound_l. Qed.
+Print Assumptions ff_cache_key_sound.
+
 (* The loops of the pinned commit (before fixes C05-1..3) do NOT satisfy the theorems above:
    witnesses, replayed by ./check C05 on the real code. *)
 Theorem ffcall_assign_head_refuted :
